@@ -73,7 +73,7 @@ pub fn run(rep: &Report) {
         }
         if !rep.quick() {
             // every triple: full catalogue on the two smallest bases, structural core on the others
-            let full = bi == 0 || bi == 2;
+            let full = bases[bi].0 == "flat" || bases[bi].0 == "array" || bases[bi].0 == "single_disclosure" || bases[bi].0 == "no_sd_at_all";
             let core: Vec<&Dev> = devs.iter().filter(|d| full || !matches!(d, Dev::DiscForm(..) | Dev::DiscName(..) | Dev::SdAddEntry(..) | Dev::PhDigest(..))).collect();
             for i in 0..core.len() {
                 for j in (i + 1)..core.len() {
